@@ -38,6 +38,7 @@ type c6Handler struct {
 	sub   *ScriptedSubscriber
 	pub   *ScriptedPublisher
 	dur   map[string]time.Duration
+	h     *message.Handler
 }
 
 func c06Body(r *Run) {
@@ -103,6 +104,22 @@ func c06Body(r *Run) {
 		earlyClose = true
 		r.Fault("subscribe-error")
 	}
+	// one run in four: a handler is stopped on its own (Handler.Stop) while the others go on; its invocations in flight
+	// still count for a later Close. One message in six makes its handler panic (once) when its time is up.
+	stopHandler, stopDelay := -1, time.Duration(0)
+	if nH > 1 && t.Chance(1, 4) {
+		stopHandler = t.Int(nH)
+		stopDelay = time.Duration(t.Int(6)) * 30 * time.Millisecond
+	}
+	panics := map[string]bool{}
+	for i := 0; i < nH; i++ {
+		for m := 0; m < len(hs[i].dur); m++ {
+			if t.Chance(1, 6) {
+				panics[fmt.Sprintf("%s-m%d", hs[i].name, m)] = true
+			}
+		}
+	}
+	r.Describe("handler stopped on its own: %d after %v; panicking messages: %v", stopHandler, stopDelay, panics)
 	r.Describe("transport gochannel=%v, %d subscriber decorators, CloseTimeout=%v, %d concurrent closers (delays %v), injected Close before step %d, Subscribe of handler %d fails", useGoChannel, nDec, closeTimeout, nClosers, closerDelay, inj, subscribeFails)
 	r.Param("inject_step", inj)
 
@@ -112,7 +129,7 @@ func c06Body(r *Run) {
 		if useGoChannel {
 			sub = ps
 		}
-		rig.Router.AddHandler(h.name, h.topic, sub, "out", h.pub, func(m *message.Message) ([]*message.Message, error) {
+		h.h = rig.Router.AddHandler(h.name, h.topic, sub, "out", h.pub, func(m *message.Message) ([]*message.Message, error) {
 			iv := &c6Inv{handler: h.name, uuid: m.UUID, start: tick(), msg: m}
 			if !useGoChannel {
 				iv.d = h.sub.ByMsg[m]
@@ -127,6 +144,11 @@ func c06Body(r *Run) {
 			}
 			iv.end = tick()
 			r.Logf("%s ends %s", h.name, m.UUID)
+			if panics[m.UUID] {
+				panics[m.UUID] = false
+				r.Fault("handler-panic")
+				panic("scripted handler panic")
+			}
 			return []*message.Message{message.NewMessage(m.UUID+">o", []byte("o"))}, nil
 		})
 	}
@@ -254,9 +276,12 @@ func c06Body(r *Run) {
 			r.Fail("C06.R5", "Router.Run did not return after Close", "")
 		}
 		if len(closes) > 0 && !useGoChannel && !earlyClose {
-			for _, h := range hs {
+			for i, h := range hs {
 				if len(h.sub.Subscribes) == 0 {
 					continue // never started
+				}
+				if i == stopHandler {
+					continue // stopped on its own: no longer one of the router's handlers when Close came
 				}
 				if h.sub.Closes == 0 {
 					r.Fail("C06.R6", "Router.Close did not close a started handler's subscriber", "%s: Subscriber.Close() calls = 0", h.name)
@@ -304,6 +329,20 @@ func c06Body(r *Run) {
 					return
 				}
 			}
+		}()
+	}
+	if stopHandler >= 0 {
+		go func() {
+			hh := hs[stopHandler].h
+			select {
+			case <-hh.Started():
+			case <-runDone:
+				return
+			}
+			time.Sleep(stopDelay)
+			r.Fault("handler-stop")
+			r.Logf("%s: Handler.Stop()", hs[stopHandler].name)
+			hh.Stop()
 		}()
 	}
 	for i := 0; i < nClosers; i++ {
